@@ -219,6 +219,8 @@ def eval_case(case: dict) -> dict:
         cur = best.get(v["sig"])
         if cur is None or len(v["detail"]) < len(cur["detail"]):
             best[v["sig"]] = v
+    if "sample" not in out and mode == "expand":
+        out["sample"] = {"history": case["hist"], "successors": [[e, s2[:8]] for e, s2 in out.get("succ", [])][:6]}
     return {"viol": list(best.values()), "nt_n": nt_hist, "evals": n, **out}
 
 
